@@ -23,6 +23,7 @@ func runC16(c *Ctx) {
 	checkGitlabAPIErrors(c)
 	checkImportedTextClean(c)
 	checkEventKindsHandled(c)
+	checkCursorFieldAndFailureSeverity(c)
 }
 
 // R16.1
@@ -192,6 +193,7 @@ func checkLookupBeforeCreate(c *Ctx) {
 			c.seeFn(funcName(fn))
 			key := fmt.Sprintf("%s→%s@%s", funcName(fn), m, caseLabel(w, cl))
 			guarded, why := false, ""
+			lookupGuarded := false
 			for _, cc := range controlConds(cl.Block(), nil) {
 				bo, isBo := cc.If.Cond.(*ssa.BinOp)
 				if !isBo {
@@ -212,10 +214,12 @@ func checkLookupBeforeCreate(c *Ctx) {
 					}
 					if isNilConst(other) && op == token.NEQ {
 						guarded, why = true, "only when the look-up by tracker id failed"
+						lookupGuarded = true
 					}
 					if u, isU := other.(*ssa.UnOp); isU && op == token.EQL {
 						if _, isG := u.X.(*ssa.Global); isG {
 							guarded, why = true, "only when the look-up reported 'no matching operation'"
+							lookupGuarded = true
 						}
 					}
 				}
@@ -307,6 +311,24 @@ func checkLookupBeforeCreate(c *Ctx) {
 				if args := cl.Args(); len(args) > 0 && isNilConst(args[len(args)-1]) {
 					continue
 				}
+			}
+			if strings.HasPrefix(m, "EditComment") && !lookupGuarded {
+				// created on the path where the look-up by tracker id FOUND the event's operation: tagging the
+				// edit with the same id gives two operations one id, and the look-up (which demands a single
+				// match) fails on every later import
+				args := cl.Args()
+				dup := false
+				if len(args) > 0 {
+					for _, r := range referrersOf(args[len(args)-1]) {
+						if mu, isMU := r.(*ssa.MapUpdate); isMU {
+							if s, isS := constString(mu.Key); isS && s == idKey {
+								dup = true
+							}
+						}
+					}
+				}
+				c.Check(!dup, "R16.2", key+":one-operation-per-tracker-id", w.InstrPos(cl.Instr), "the edit of an already imported comment does not reuse the comment's tracker id", "the edit of an already imported comment is tagged with the tracker id its comment already carries: from then on the look-up by that id finds two operations and fails ('multiple matching operation'), every later round reports an error and the cursor never advances again")
+				continue
 			}
 			args := cl.Args()
 			tagged := false
@@ -642,5 +664,127 @@ func checkEventKindsHandled(c *Ctx) {
 	c.Check(len(missing) == 0 || hasDefaultErr, "R16.5", "ensureIssueEvent:kinds", w.FnPos(fn), fmt.Sprintf("%d kinds, unhandled ones end in an error", n), "event kinds "+strings.Join(missing, ", ")+" are neither handled nor refused")
 	if len(missing) > 0 {
 		c.Info("R16.5", "ensureIssueEvent:kinds-to-default", w.FnPos(fn), "kinds falling to the error default: "+strings.Join(missing, ", "))
+	}
+}
+
+// R16.6: the cursor selects by update time. R16.7: failures inside the importer are errors.
+func checkCursorFieldAndFailureSeverity(c *Ctx) {
+	w := c.W
+	c.Doc("R16.6", "gitlab.Issues hands the 'since' cursor to the listing as UpdatedAfter (issues changed since the last import), and to no other filter: an incremental import sees new activity on issues imported earlier")
+	c.Doc("R16.7", "in gitlabImporter.ImportAll every failure of ensureIssue / ensureIssueEvent / Commit and every error event of the listings is relayed as core.NewImportError (the kind that keeps the cursor from advancing), never as a warning or a 'nothing' result")
+	// R16.6
+	var issuesBody *ssa.Function
+	if is := w.Func("bridge/gitlab", "Issues"); is != nil {
+		issuesBody = is
+		for _, a := range is.AnonFuncs {
+			if len(CallsDeep(a)) > 0 {
+				issuesBody = a
+			}
+		}
+		c.seeFn(funcName(is))
+		var since ssa.Value
+		for _, p := range is.Params {
+			if strings.HasSuffix(p.Type().String(), "time.Time") {
+				since = p
+			}
+		}
+		okUpd, bad := false, ""
+		scan := func(fn *ssa.Function) {
+			for _, b := range fn.Blocks {
+				for _, ins := range b.Instrs {
+					st, isSt := ins.(*ssa.Store)
+					if !isSt {
+						continue
+					}
+					fa, isFA := st.Addr.(*ssa.FieldAddr)
+					if !isFA || !strings.Contains(typeShortName(fa.X.Type()), "ListProjectIssuesOptions") {
+						continue
+					}
+					c.Sites++
+					// is the stored value (the address of) the since cursor?
+					isSince := false
+					for _, o := range origins(st.Val) {
+						if (o.Kind == "param" || o.Kind == "freevar") && since != nil && (o.Val == since || o.Name == since.Name()) {
+							isSince = true
+						}
+					}
+					if al, isAl := st.Val.(*ssa.Alloc); isAl {
+						for _, r := range *al.Referrers() {
+							if s2, isS2 := r.(*ssa.Store); isS2 && s2.Addr == ssa.Value(al) && s2.Val == since {
+								isSince = true
+							}
+						}
+					}
+					if fv, isFV := st.Val.(*ssa.FreeVar); isFV && since != nil && fv.Name() == since.Name() {
+						isSince = true
+					}
+					if !isSince {
+						continue
+					}
+					if fieldName(fa) == "UpdatedAfter" {
+						okUpd = true
+					} else {
+						bad = fieldName(fa)
+					}
+				}
+			}
+		}
+		scan(is)
+		for _, a := range is.AnonFuncs {
+			scan(a)
+		}
+		why := "the cursor is not handed to the issue listing as UpdatedAfter"
+		if bad != "" {
+			why = "the cursor is handed to the issue listing as " + bad + ": issues imported earlier are never listed again, their new comments, labels, edits and state changes are never imported, without any error"
+		}
+		c.Check(okUpd && bad == "", "R16.6", "bridge/gitlab.Issues:cursor-is-updated-after", w.FnPos(is), "since → UpdatedAfter", why)
+	} else {
+		c.Undecided("R16.6", "anchor:bridge/gitlab.Issues", "bridge/gitlab", "not found")
+	}
+	_ = issuesBody
+	// R16.7
+	ia := w.Method("bridge/gitlab", "gitlabImporter", "ImportAll")
+	if ia == nil {
+		c.Undecided("R16.7", "anchor:gitlabImporter.ImportAll", "bridge/gitlab", "not found")
+		return
+	}
+	n := 0
+	for _, body := range append([]*ssa.Function{ia}, ia.AnonFuncs...) {
+		for _, cl := range Calls(body) {
+			isEnsure := strings.HasPrefix(cl.Name, "bridge/gitlab.gitlabImporter.ensure") || strings.HasSuffix(cl.Name, ".Commit")
+			if !isEnsure || cl.Value() == nil || len(errValues(cl.Value())) == 0 {
+				continue
+			}
+			n++
+			c.Sites++
+			_, m := lastDot(cl.Name)
+			ok, why := false, "the failure of "+m+" is not relayed"
+			for _, fb := range failureBlocksThroughPhi(cl.Value()) {
+				// the first send on the out channel reachable from the failure edge carries a NewImportError
+				found, _, at := pathSearch(body, nil, fb, func(i ssa.Instruction) bool {
+					_, isSend := i.(*ssa.Send)
+					return isSend
+				}, isAnyReturn, true)
+				if !found {
+					continue
+				}
+				snd := at.(*ssa.Send)
+				kind := ""
+				for _, o := range origins(snd.X) {
+					if o.Kind == "call" && strings.HasPrefix(o.Name, "bridge/core.NewImport") {
+						kind = strings.TrimPrefix(o.Name, "bridge/core.")
+					}
+				}
+				if kind == "NewImportError" {
+					ok = true
+				} else {
+					why = "the failure of " + m + " is relayed as " + kind + " at " + w.InstrPos(snd) + ": the round counts as clean, the cursor advances and what could not be imported is skipped for good"
+				}
+			}
+			c.Check(ok, "R16.7", "gitlabImporter.ImportAll:"+m+":failure-is-error", w.InstrPos(cl.Instr), "relayed as NewImportError", why)
+		}
+	}
+	if n < 3 {
+		c.Violate("R16.7", "expected:importer-steps", w.FnPos(ia), fmt.Sprintf("%d fallible importer steps found in ImportAll (reference 3: ensureIssue, ensureIssueEvent, Commit)", n))
 	}
 }
